@@ -1,3 +1,258 @@
-"""Kani harness groups (filled in per property)."""
-def run_group(group, prop, tier, repo):
-    return {'group': group, 'failures': [], 'undecided': [], 'checks': 0, 'harnesses': [], 'trusted': []}
+"""Kani harness groups: generate the harness crate from /verif/kani + files extracted from /repo, run `cargo kani`,
+parse per-harness verdicts, fetch concrete counterexamples with --concrete-playback."""
+import hashlib
+import json
+import os
+import re
+import shutil
+import subprocess
+import sys
+import time
+
+VERIF = os.path.dirname(os.path.dirname(os.path.abspath(__file__)))
+sys.path.insert(0, os.path.join(VERIF, 'extract'))
+import extractor as X  # noqa: E402
+
+CACHE = os.path.join(VERIF, '.cache')
+
+
+def zoom_harnesses(zooms, adj_zooms, child_zooms):
+    out = ['// GENERATED: per-zoom harnesses (z is a literal, so every loop bound is concrete)',
+           'use crate::spec::*;', 'use pmtiles2::util::{tile_id, zxy};', '']
+    names = []
+    for z in zooms:
+        out.append(f'''#[kani::proof]
+#[kani::unwind(34)]
+fn h1_z{z}() {{
+    let z: u8 = {z};
+    let x: u64 = kani::any();
+    let y: u64 = kani::any();
+    kani::assume(x < (1u64 << z) && y < (1u64 << z));
+    let id = tile_id(z, x, y);
+    assert!(id == spec_id(z, x, y));
+    let (z2, x2, y2) = zxy(id).unwrap();
+    assert!(z2 == z && x2 == x && y2 == y);
+}}
+#[kani::proof]
+#[kani::unwind(34)]
+fn h2_z{z}() {{
+    let z: u8 = {z};
+    let id: u64 = kani::any();
+    kani::assume(base_id(z) <= id && id < base_id(z + 1));
+    let (z2, x, y) = zxy(id).unwrap();
+    assert!(z2 == z);
+    assert!(x < (1u64 << z) && y < (1u64 << z));
+    assert!(tile_id(z2, x, y) == id);
+}}''')
+        names += [(f'h1_z{z}', f'util::tile_id+zxy (zoom {z}, all x,y)'), (f'h2_z{z}', f'util::zxy+tile_id (zoom {z}, all ids of the block)')]
+    for z in adj_zooms:
+        out.append(f'''#[kani::proof]
+#[kani::unwind(34)]
+fn adj_z{z}() {{
+    let z: u8 = {z};
+    let id: u64 = kani::any();
+    kani::assume(base_id(z) <= id && id + 1 < base_id(z + 1));
+    let (_, x1, y1) = zxy(id).unwrap();
+    let (_, x2, y2) = zxy(id + 1).unwrap();
+    let dx = if x1 > x2 {{ x1 - x2 }} else {{ x2 - x1 }};
+    let dy = if y1 > y2 {{ y1 - y2 }} else {{ y2 - y1 }};
+    assert!(dx + dy == 1);
+}}''')
+        names.append((f'adj_z{z}', f'util::zxy edge-adjacency of consecutive ids (zoom {z}; bounded in z)'))
+    for z in child_zooms:
+        out.append(f'''#[kani::proof]
+#[kani::unwind(34)]
+fn child_z{z}() {{
+    let z: u8 = {z};
+    let x: u64 = kani::any();
+    let y: u64 = kani::any();
+    let a: u64 = kani::any();
+    let b: u64 = kani::any();
+    kani::assume(x < (1u64 << z) && y < (1u64 << z) && a < 2 && b < 2);
+    let d = tile_id(z, x, y) - base_id(z);
+    let c = tile_id(z + 1, 2 * x + a, 2 * y + b) - base_id(z + 1);
+    assert!(c / 4 == d);
+}}''')
+        names.append((f'child_z{z}', f'util::tile_id children occupy one aligned block of four (zoom {z}; bounded in z)'))
+    return '\n'.join(out) + '\n', names
+
+
+def gen_latlng(crate):
+    """cut the two conversion expressions out of LatLng::{read_lat_lon, write_lat_lon}"""
+    rd = crate.find_fn('header::lat_lng', 'read_lat_lon')
+    wr = crate.find_fn('header::lat_lng', 'write_lat_lon')
+    rtxt = X.join(X.strip_attrs(rd['body']))
+    wtxt = X.join(X.strip_attrs(wr['body']))
+    const = X.join(X.strip_attrs(crate.find_item('header::lat_lng', 'const', 'LAT_LONG_FACTOR')))
+    m1 = re.search(r'let \(rest, value\) = i32::read\(rest, \(\)\)\?;\s*Ok\(\(rest, (.*)\)\)\s*$', rtxt)
+    m2 = re.search(r'^let value = (.*?);\s*value\.write\(output, \(\)\)\s*$', wtxt)
+    if not m1 or not m2:
+        raise X.ExtractionError('LatLng::read_lat_lon / write_lat_lon no longer have the shape `let (rest, value) = i32::read(..)?; '
+                                'Ok((rest, EXPR))` / `let value = EXPR; value.write(..)`: ' + rtxt[:200] + ' | ' + wtxt[:200])
+    return ('// GENERATED from /repo src/header/lat_lng.rs (expanded): the two conversion expressions, verbatim\n'
+            f'pub {const}\n'
+            f'pub fn r(value: i32) -> f64 {{ {m1.group(1)} }}\n'
+            f'pub fn w(field: f64) -> i32 {{ {m2.group(1)} }}\n')
+
+
+GROUPS = {
+    # group -> (static harnesses [(name, target)], needs zooms?)
+    'varint': [('v1_write_u64', 'integer_encoding::VarIntWriter::write_varint::<u64>'), ('v2_write_u32', 'integer_encoding::VarIntWriter::write_varint::<u32>'),
+               ('v5_roundtrip_u64', 'integer_encoding write_varint+read_varint')],
+    'tile_id': [('h3_zxy_total', 'util::zxy (every u64 id)'), ('h5_blocks_contiguous', 'util::tile_id block starts')],
+    'latlng': [('f1_nearest', 'header::lat_lng::LatLng::write_lat_lon (conversion expression)'),
+               ('f2_identity_slice', 'header::lat_lng::LatLng::{read_lat_lon, write_lat_lon} (conversion expressions, 2^16 slice)')],
+}
+
+
+def prepare(repo, tier, crate):
+    fp = hashlib.sha256((os.path.realpath(repo) + tier).encode()).hexdigest()[:10]
+    d = os.path.join(CACHE, f'kani-crate-{fp}')
+    os.makedirs(os.path.join(d, 'src'), exist_ok=True)
+    for f in os.listdir(os.path.join(VERIF, 'kani', 'src')):
+        shutil.copy(os.path.join(VERIF, 'kani', 'src', f), os.path.join(d, 'src', f))
+    t = open(os.path.join(VERIF, 'kani', 'Cargo.toml.in')).read().replace('@REPO@', os.path.realpath(repo))
+    open(os.path.join(d, 'Cargo.toml'), 'w').write(t)
+    os.makedirs(os.path.join(d, '.cargo'), exist_ok=True)
+    open(os.path.join(d, '.cargo', 'config.toml'), 'w').write('[net]\noffline = true\n')
+    # lock file: resolve offline once (registry cache), then reuse
+    lock = os.path.join(CACHE, 'kani-Cargo.lock')
+    if os.path.exists(lock):
+        shutil.copy(lock, os.path.join(d, 'Cargo.lock'))
+    if tier == 'thorough':
+        zooms, adj, child = list(range(0, 32)), list(range(1, 9)), list(range(0, 8))
+    else:
+        zooms, adj, child = list(range(0, 7)), [1, 2, 3, 4], [0, 1, 2, 3]
+    ztxt, znames = zoom_harnesses(zooms, adj, child)
+    open(os.path.join(d, 'src', 'gen_zoom.rs'), 'w').write(ztxt)
+    open(os.path.join(d, 'src', 'gen_latlng.rs'), 'w').write(gen_latlng(crate))
+    return d, znames
+
+
+def qualify(n):
+    if n.startswith('v'):
+        return 'varint::' + n
+    if n.startswith('f'):
+        return 'latlng::' + n
+    if n in ('h3_zxy_total', 'h5_blocks_contiguous'):
+        return 'tile_id::' + n
+    return 'gen_zoom::' + n
+
+
+def run_harnesses(d, names, jobs, timeout):
+    env = dict(os.environ, CARGO_NET_OFFLINE='true', CARGO_TARGET_DIR=os.path.join(CACHE, 'kani-target'))
+    cmd = ['cargo', 'kani', '-j', str(jobs), '--output-format', 'terse', '--exact']
+    for n in names:
+        cmd += ['--harness', qualify(n)]
+    t0 = time.time()
+    try:
+        p = subprocess.run(cmd, cwd=d, env=env, capture_output=True, text=True, timeout=timeout)
+        out = p.stdout + '\n' + p.stderr
+        rc = p.returncode
+    except subprocess.TimeoutExpired as e:
+        out = ((e.stdout or b'').decode(errors='replace') if isinstance(e.stdout, bytes) else (e.stdout or '')) + '\nTIMEOUT'
+        rc = -9
+    lock = os.path.join(d, 'Cargo.lock')
+    if os.path.exists(lock) and not os.path.exists(os.path.join(CACHE, 'kani-Cargo.lock')):
+        shutil.copy(lock, os.path.join(CACHE, 'kani-Cargo.lock'))
+    return out, rc, time.time() - t0, ' '.join(cmd)
+
+
+def parse(out, names):
+    """per-harness: status, checks, time"""
+    res = {}
+    # terse / parallel output: blocks start with 'Checking harness X...' or 'Thread N: Checking harness X...'
+    blocks = re.split(r'(?:Thread \d+: )?Checking harness ', out)
+    for b in blocks[1:]:
+        m = re.match(r'([\w:]+)\.\.\.', b)
+        if not m:
+            continue
+        nm = m.group(1).split('::')[-1]
+        st = None
+        if re.search(r'VERIFICATION:- SUCCESSFUL', b):
+            st = 'ok'
+        elif re.search(r'VERIFICATION:- FAILED', b):
+            st = 'failed'
+        mc = re.search(r'\*\* (\d+) of (\d+) failed', b)
+        mt = re.search(r'Verification Time: ([\d.]+)s', b)
+        failed_checks = re.findall(r'Failed Checks: (.*)', b)
+        res[nm] = {'status': st, 'checks': int(mc.group(2)) if mc else 0, 'failed': int(mc.group(1)) if mc else 0,
+                   'time_s': float(mt.group(1)) if mt else None, 'failed_checks': failed_checks[:5],
+                   'unwind_fail': any('unwinding assertion' in f for f in failed_checks)}
+    # summary form "Manual Harness Summary" lines: 'Verification failed for - name'
+    for nm in re.findall(r'Verification failed for - ([\w:]+)', out):
+        nm = nm.split('::')[-1]
+        res.setdefault(nm, {'status': 'failed', 'checks': 0, 'failed': 1, 'time_s': None, 'failed_checks': [], 'unwind_fail': False})
+        res[nm]['status'] = 'failed'
+    return res
+
+
+def playback(d, name, timeout=900):
+    """concrete counterexample of a failed harness"""
+    env = dict(os.environ, CARGO_NET_OFFLINE='true', CARGO_TARGET_DIR=os.path.join(CACHE, 'kani-target'))
+    cmd = ['cargo', 'kani', '--exact', '--harness', qualify(name), '-Z', 'concrete-playback', '--concrete-playback=print', '--output-format', 'terse']
+    try:
+        p = subprocess.run(cmd, cwd=d, env=env, capture_output=True, text=True, timeout=timeout)
+    except subprocess.TimeoutExpired:
+        return None
+    m = re.search(r'let concrete_vals: Vec<Vec<u8>> = vec!\[(.*?)\];', p.stdout, re.S)
+    if not m:
+        return None
+    vals = []
+    for v in re.findall(r'vec!\[([\d,\s]*)\]', m.group(1)):
+        bs = bytes(int(x) for x in v.replace(' ', '').split(',') if x)
+        vals.append(int.from_bytes(bs, 'little'))
+    return vals
+
+
+def run_group(group, prop, tier, repo, crate=None):
+    r = {'group': group, 'failures': [], 'undecided': [], 'checks': 0, 'harnesses': [], 'trusted': [], 'wall_s': 0}
+    if crate is None:
+        text, _ = X.expand(repo, CACHE)
+        crate = X.Crate(text)
+    try:
+        d, znames = prepare(repo, tier, crate)
+    except X.ExtractionError as e:
+        r['undecided'].append(f'kani group {group}: {e}')
+        return r
+    names = list(GROUPS[group])
+    if group == 'tile_id':
+        names += znames
+    jobs = int(os.environ.get('VERIF_KANI_JOBS', '14'))
+    timeout = int(os.environ.get('VERIF_KANI_TIMEOUT', '7200' if tier == 'thorough' else '1500'))
+    # result cache: key = harness sources + repo fingerprint + kani version
+    key = hashlib.sha256((''.join(open(os.path.join(d, 'src', f)).read() for f in sorted(os.listdir(os.path.join(d, 'src'))))
+                          + X.repo_fingerprint(repo) + group + tier).encode()).hexdigest()[:24]
+    cfile = os.path.join(CACHE, 'kani', f'{group}-{key}.json')
+    os.makedirs(os.path.dirname(cfile), exist_ok=True)
+    if os.path.exists(cfile):
+        saved = json.load(open(cfile))
+        out, rc, wall, cmd, hit = saved['out'], saved['rc'], saved['wall'], saved['cmd'], True
+    else:
+        out, rc, wall, cmd = run_harnesses(d, [n for n, _ in names], jobs, timeout)
+        hit = False
+        if 'TIMEOUT' not in out[-20:]:
+            json.dump({'out': out, 'rc': rc, 'wall': wall, 'cmd': cmd}, open(cfile, 'w'))
+    r['wall_s'] = round(wall, 1)
+    r['cmd'] = cmd
+    r['cache_hit'] = hit
+    res = parse(out, names)
+    for n, target in names:
+        h = res.get(n)
+        if h is None or h['status'] is None:
+            r['undecided'].append(f'kani harness {n}: no verdict (build error, timeout or out of memory): ' + out[-400:].replace('\n', ' '))
+            continue
+        bounded = n.startswith(('adj_', 'child_', 'f2_'))
+        r['harnesses'].append({'name': n, 'target': target, 'checks': h['checks'], 'time_s': h['time_s'],
+                               'complete': not bounded, 'status': h['status']})
+        r['checks'] += h['checks']
+        if h['status'] == 'failed':
+            if h['unwind_fail'] and h['failed'] == sum(1 for f in h['failed_checks'] if 'unwinding' in f):
+                r['undecided'].append(f'kani harness {n}: only unwinding assertions failed (loop bound too small for the changed code)')
+                continue
+            vals = playback(d, n)
+            r['failures'].append({'function': target, 'unit': 'kani:' + group, 'kind': 'kani check failed', 'clause': n + ': ' + '; '.join(h['failed_checks'])[:300],
+                                  'site': n, 'tags': [prop + ':' + n], 'src': None, 'rendered': '', 'kani_values': vals, 'lost_anchors': []})
+    r['trusted'] = ['kani 0.68 / cbmc 6.11 bit-precise semantics of the compiled MIR of pmtiles2, hilbert_2d 1.1.0, integer-encoding 3.0.4',
+                    'kani/src/spec.rs: reference Hilbert id and LEB128 transcribed from the PMTiles v3 specification']
+    return r
